@@ -813,6 +813,27 @@ func (e *Env) call(x *Expr) Val {
 			return Val{T: ee.asSeq(v), Sort: "(Seq Int)"}
 		}
 		return ee.rv(v)
+	case "ints":
+		// ints(x): the elements of the integer slice x as a sequence of integers
+		if len(x.Args) != 1 {
+			fail("usage: ints(<slice of integers>)")
+		}
+		b := e.rv(e.tr(x.Args[0]))
+		if b.Sort != "Slice" || b.GoT == nil {
+			fail("ints() needs a slice of integers")
+		}
+		sl, ok := b.GoT.Underlying().(*types.Slice)
+		if !ok || !isInteger(sl.Elem()) || isByteLike(sl.Elem()) {
+			fail("ints() needs a slice of (non-byte) integers, got %v", b.GoT)
+		}
+		if e.pure {
+			fail("slice content in pure context")
+		}
+		k := e.g.scalarKind(sl.Elem())
+		if e.g.u.heapSort(k) != "(Array Loc Int)" {
+			fail("ints(): element kind %s is not an integer heap", k)
+		}
+		return Val{T: "(ints " + e.g.heap(e.cur, k) + " " + b.T + ")", Sort: "(Seq Int)"}
 	case "mapcells":
 		// mapcells(m): the whole content of map m (a modifies item)
 		b := e.rv(e.tr(x.Args[0]))
